@@ -215,6 +215,8 @@ func checkC09(run *h.Run) {
 			rt[u] = routable(t, u)
 		}
 		for _, q := range reqs {
+			// a fresh filter per request: history effects are the E2 part's business
+			w = corsBuild(cfg, true)
 			got, twin := w.do(q), t.do(q)
 			results[i].cases++
 			if cfg.allowed(q.Header("Origin")) {
